@@ -70,6 +70,9 @@ def _template(name, seed):
         kw.update(spec[name])
         fr = stg.Frame(**kw)
         fr.data[:] = float(seed % 7) + ord(name[0]) / 256.0
+        # a user who looked at the frame before putting it into a cadence: derived quantities are read once here, so
+        # that a value memoised on the frame is present (and must not go stale when the cadence re-times the frame)
+        _ = (fr.t_stop, fr.fmid, fr.obs_length, fr.mjd)
         _TEMPLATES[(name, seed)] = (fr, json.dumps(sorted((a, repr(b)) for a, b in fr.metadata.items())), fr.t_start)
     return _TEMPLATES[(name, seed)]
 
@@ -88,6 +91,16 @@ def make_obj(name, seed):
         fr.metadata = dict(tpl.metadata)
         fr.data = tpl.data.copy()
         fr.ts = tpl.ts.copy()
+        if name in 'defg':
+            # deterministic process history: every incompatible frame has already been a LEGITIMATE member of another
+            # cadence (alone), so a guard that remembers "already validated" frames is poisoned in every process alike
+            import setigen as stg
+            try:
+                stg.Cadence([fr])
+                stg.OrderedCadence([], order='ABACAD')
+            except Exception:
+                pass
+            fr.metadata = dict(tpl.metadata)
         return fr
     if name == 'n5':
         return 5
@@ -484,12 +497,14 @@ def observe_all(w, st, V, out):
         try:
             if cad.tchans != sum(f.tchans for f in fr):
                 V('Cadence.tchans', 'aggregate_mismatch', 'tchans=%r, members have %s' % (cad.tchans, [f.tchans for f in fr]))
-            scale = max(abs(f.t_stop) for f in fr)
-            want = fr[-1].t_stop - fr[0].t_start
+            # the members' stop times from their own start time and extent (not from a possibly memoised attribute)
+            tstop = [f.t_start + f.tchans * f.dt for f in fr]
+            scale = max(abs(x) for x in tstop)
+            want = tstop[-1] - fr[0].t_start
             if not _close(cad.obs_range, want, scale):
                 V('Cadence.obs_range', 'aggregate_mismatch', 'obs_range=%r, members give %r' % (cad.obs_range, want))
             sw = np.asarray(cad.slew_times)
-            wsw = [fr[i].t_start - fr[i - 1].t_stop for i in range(1, n)]
+            wsw = [fr[i].t_start - tstop[i - 1] for i in range(1, n)]
             if sw.shape != (n - 1,) or any(not _close(sw[i], wsw[i], scale) for i in range(n - 1)):
                 V('Cadence.slew_times', 'aggregate_mismatch', 'slew_times=%r, members give %r' % (sw.tolist(), wsw))
             if cad.t_start != fr[0].t_start:
@@ -844,8 +859,69 @@ def case_tlc(c):
 
 
 # ---------------------------------------------------------------------------------------------- driver
+def case_real_frames(c):
+    """Ordered cadences of frames built by the library's OTHER construction routes (from_data without a metadata
+    argument, slices, de-drifted frames, copies): every frame must get the label of its own insertion position and
+    by_label must return exactly the frames carrying the label (a metadata dictionary shared between frames shows here)."""
+    import setigen as stg
+    viol = []
+
+    def V(site, failure, detail):
+        viol.append({'site': site, 'failure': failure, 'detail': detail})
+    order = c['order']
+    n = c['n']
+    base = stg.Frame(fchans=8, tchans=2, df=2.0, dt=1.0, fch1=1000.0, ascending=True, seed=1, t_start=1.0e9)
+    frames = []
+    for i in range(n):
+        r = c['routes'][i % len(c['routes'])]
+        if r == 'from_data':
+            fr = stg.Frame.from_data(2.0, 1.0, 1000.0, True, np.full((2, 4), float(i)))
+        elif r == 'from_data_meta':
+            fr = stg.Frame.from_data(2.0, 1.0, 1000.0, True, np.full((2, 4), float(i)), metadata={'tag': i})
+        elif r == 'slice':
+            fr = base.get_slice(0, 4)
+        elif r == 'dedrift':
+            fr = stg.dedrift(stg.Frame(fchans=5, tchans=2, df=2.0, dt=1.0, fch1=1000.0, ascending=True, seed=2, t_start=1.0e9), 1.0)
+        elif r == 'copy':
+            fr = stg.Frame(fchans=4, tchans=2, df=2.0, dt=1.0, fch1=1000.0, ascending=True, seed=3, t_start=1.0e9).copy()
+        else:
+            fr = stg.Frame(fchans=4, tchans=2, df=2.0, dt=1.0, fch1=1000.0, ascending=True, seed=4, t_start=1.0e9)
+        frames.append(fr)
+    try:
+        if c['build'] == 'constructor':
+            cad = stg.OrderedCadence(frames, order=order)
+        else:
+            cad = stg.OrderedCadence(order=order)
+            for fr in frames:
+                cad.append(fr)
+    except Exception as e:
+        V('OrderedCadence', 'raised_on_valid_op', 'building an ordered cadence of %s frames raised %s: %s' % (c['routes'], type(e).__name__, e))
+        return {'viol': viol}
+    labels = [f.metadata.get('order_label') for f in cad]
+    want = list(order[:n])
+    if labels != want:
+        V('OrderedCadence', 'wrong_label', 'frames built via %s got labels %s, insertion positions give %s' % (c['routes'], labels, want))
+    if len(set(id(f.metadata) for f in frames)) != n:
+        V('Frame.from_data', 'shared_metadata', 'frames built via %s share one metadata dictionary' % (c['routes'],))
+    for L in sorted(set(order)):
+        got = [id(f) for f in cad.by_label(L)]
+        exp = [id(f) for f, l in zip(frames, want) if l == L]
+        if got != exp:
+            V('OrderedCadence.by_label', 'by_label_mismatch', 'by_label(%r) returns %d frames, %d carry that insertion label (routes %s)'
+              % (L, len(got), len(exp), c['routes']))
+    return {'viol': viol, 'nontrivial': [engine.sha(c)], 'outcomes': ['real/%s' % ''.join(want)], 'transitions': n, 'traces': 1}
+
+
 def run(ctx):
     thorough = ctx.tier == 'thorough'
+    real = []
+    for routes in (['from_data'], ['slice'], ['dedrift'], ['copy'], ['from_data', 'plain'], ['from_data_meta', 'from_data'],
+                   ['slice', 'from_data', 'dedrift', 'copy']):
+        for order in ('ABACAD', 'AB' * 3):
+            for n in (2, 4, 6):
+                for build in ('constructor', 'append'):
+                    real.append(dict(routes=routes, order=order, n=n, build=build))
+    ctx.pmap(case_real_frames, real)
     lmax = 4
     depth = 5 if thorough else 4
     box = {}
